@@ -28,6 +28,7 @@ Definition check (k : rcase) : bool :=
     if r_mode k =? 0 then (fun _ => None)
     else if r_mode k =? 1 then (fun e => Some e)
     else rename_tx lower (r_from k) (r_to k) in
+  negb (isln 0) && negb (isln 46) && negb (isln 64) && N.eqb (lower 95) 95 &&   (* table facts the theorems assume *)
   match refactor_template isln lower printable tx (r_tops k) (r_in k) with
   | Ok (out, errs, inside) =>
       inside && text_eqb out (r_out k) && Bool.eqb (negb (Nat.eqb errs 0)) (r_err k)
